@@ -61,6 +61,42 @@ Definition coordinated_first_call (s : sts_status) : bool :=
 Definition replicas_first_call (l : list sts_status) : list string :=
   map st_name (filter coordinated_first_call l).
 
+(* Replicas() over time: one ReplicasManager remembers, per StatefulSet, since when it has been waiting for it to
+   become ready (nil = absent). A set that is being updated is skipped and its memory cleared; a set that is not ready
+   is skipped until two minutes have passed since it was first seen so; the memory is not cleared when it is ready. *)
+Definition rm_state := list (string * Z).
+Fixpoint rm_find (n : string) (st : rm_state) : option Z :=
+  match st with [] => None | (k, v) :: r => if String.eqb n k then Some v else rm_find n r end.
+Fixpoint rm_del (n : string) (st : rm_state) : rm_state :=
+  match st with [] => [] | (k, v) :: r => if String.eqb n k then rm_del n r else (k, v) :: rm_del n r end.
+Definition rm_set (n : string) (v : Z) (st : rm_state) : rm_state := (n, v) :: rm_del n st.
+Definition wait_seconds : Z := 120.
+Definition replicas_one (now : Z) (st : rm_state) (s : sts_status) : rm_state * bool :=
+  if negb (st_replicas s =? st_updated s) then (rm_del (st_name s) st, false)
+  else
+    let notready := negb (st_ready s =? st_replicas s) in
+    let st1 := match rm_find (st_name s) st with
+               | None => if notready then rm_set (st_name s) now st else st
+               | Some _ => st
+               end in
+    match rm_find (st_name s) st1 with
+    | Some t => (st1, negb (notready && (now - t <? wait_seconds)))
+    | None => (st1, true)
+    end.
+Fixpoint replicas_call (now : Z) (st : rm_state) (l : list sts_status) : rm_state * list string :=
+  match l with
+  | [] => (st, [])
+  | s :: r => let (st1, take) := replicas_one now st s in
+              let (st2, names) := replicas_call now st1 r in
+              (st2, if take then st_name s :: names else names)
+  end.
+(* a history of calls: (seconds passed since the previous call, what the API server lists) *)
+Fixpoint replicas_hist (now : Z) (st : rm_state) (calls : list (Z * list sts_status)) : list (list string) :=
+  match calls with
+  | [] => []
+  | (dt, l) :: r => let (st1, names) := replicas_call (now + dt) st l in names :: replicas_hist (now + dt) st1 r
+  end.
+
 (* ---- observation used by the correspondence check ---- *)
 Definition shard_out_eqb (a b : shard_out) : bool :=
   String.eqb (s_id a) (s_id b) && String.eqb (s_url a) (s_url b) && Bool.eqb (s_ready a) (s_ready b).
